@@ -4,7 +4,7 @@
    bookkeeping, missing-peer unwrap) from a state satisfying NodeInv. *)
 From RV Require Import Base.Prelude Base.IdSet M.Util M.Proto M.MemStorage M.Inflights
   M.InflightsProofs M.Progress M.RaftLog M.Quorum M.ConfChange M.Msg M.Raft M.RawNode
-  M.RaftProofs M.RaftProofsC15 M.RaftProofsC09 M.RaftProofsC20 M.RaftProofsC20Iff M.RaftProofsC20Inv
+  M.RaftProofs M.RaftProofsC20 M.RaftProofsC20Iff M.RaftProofsC20Inv
   M.RaftProofsC20Wit.
 From RecordUpdate Require Import RecordSet.
 Import RecordSetNotations.
@@ -537,8 +537,10 @@ Proof.
   match goal with |- safe _ (if ?c then _ else _) => destruct c end; [ssafe|].
   destruct (log_restore (r_log r) s) as [l'|s1] eqn:El; cbn [bind].
   2:{ apply log_restore_sites_ok in El. destruct El as [<-|[]]. apply notin_b. vm_compute. reflexivity. }
-  apply log_restore_eq in El. subst l'.
-  change (last_index (r_log (r <| r_log := restored_log (r_log r) s |>))) with (s_index s).
+  assert (Eli : last_index l' = s_index s).
+  { unfold log_restore in El. destruct (s_index s <? committed (r_log r)); [discriminate|].
+    injection El as <-. reflexivity. }
+  change (last_index (r_log (r <| r_log := l' |>))) with (last_index l'). rewrite Eli.
   destruct (ConfChange.restore empty_tracker (s_cs s)) as [[c' ids']|e]; [|ssafe].
   eapply safe_bind.
   { apply post_conf_change_safe. apply NodeInv_fresh; [|exact Hs]. solve_ni. }
@@ -602,14 +604,28 @@ Proof.
     rewrite (pget_map f), Hp. cbn [option_map]. eauto.
 Qed.
 
+Lemma filter_footprint ents : forall r info i r' ents' ok,
+  filter_conf_changes r ents info i = (r', ents', ok) ->
+  t_progress (r_prs r') = t_progress (r_prs r) /\ r_read_only r' = r_read_only r.
+Proof.
+  induction ents as [|e rest IH]; intros r info i r' ents' ok H; cbn [filter_conf_changes] in H.
+  - injection H as <- _ _. split; reflexivity.
+  - repeat match type of H with
+           | (match filter_conf_changes ?a ?b ?c ?d with _ => _ end) = _ =>
+               destruct (filter_conf_changes a b c d) as [[ra ea] oa] eqn:F; apply IH in F
+           | (if ?c then _ else _) = _ => destruct c
+           end; injection H as <- _ _; try (split; reflexivity); exact F.
+Qed.
+
 Lemma step_leader_safe r m : NodeInv r -> safe (fun x => NodeInv (fst x)) (step_leader r m).
 Proof.
   intros H. unfold step_leader. cbv zeta.
   destruct (NodeInv_quorum_recently_active r H) as [Hq Kq].
   destruct (quorum_recently_active (r_prs r) (r_id r)) as [prs' active]. cbn [fst] in Hq, Kq.
   destruct (filter_conf_changes r (m_entries m) (m_ccinfo m) 0) as [[r1 ents] ok] eqn:Ef.
-  apply filter_frame in Ef. rewrite Ef. clear Ef.
-  generalize (r_pending_conf_index r1). intros pci. clear r1.
+  apply filter_footprint in Ef. destruct Ef as (Ef1 & Ef2).
+  assert (H1 : NodeInv r1) by (destruct H as [A B]; split; [rewrite Ef1; exact A|rewrite Ef2; exact B]).
+  assert (K1 : keeps r r1) by (unfold keeps; rewrite Ef1; apply keepsL_refl).
   ssafe.
 Qed.
 #[export] Hint Extern 1 (safe _ (step_leader _ _)) => eapply step_leader_safe : safe.
@@ -1047,3 +1063,89 @@ Lemma pr_ok_def_pin p : pr_ok p <-> InflightsProofs.Inv (ins p) /\ 1 <= next_idx
 Proof. reflexivity. Qed.
 Lemma RoInv_def_pin ro : RoInv ro <-> ro_queue ro = map fst (ro_pending ro).
 Proof. reflexivity. Qed.
+
+(* ================================================================== *)
+(* NodeInv holds after construction (Raft::new / RawNode::new).  The Progress entries are
+   created with next_idx = last_index (possibly 0 on an empty log); the final
+   become_follower resets them to last_index + 1. *)
+Lemma reset_establishes r t r' :
+  reset r t = Ok r' ->
+  (forall id p, get_pr r id = Some p -> Inv (ins p)) -> NodeInv r'.
+Proof.
+  unfold reset. cbv zeta. intros H Hi.
+  set (r0 := if negb (r_term r =? t) then r <| r_term := t |> <| r_vote := INVALID_ID |> else r) in *.
+  assert (Ep : t_progress (r_prs r0) = t_progress (r_prs r))
+    by (subst r0; destruct (negb _); reflexivity).
+  destruct (r_draws r0) as [|d ds]; [discriminate|]. injection H as <-.
+  set (f := fun (k : N) (p0 : progress) =>
+       if k =? r_id r0
+       then set_committed_index (set_matched (pr_reset p0 (last_index (r_log r0) + 1))
+              (persisted (r_log r0))) (committed (r_log r0))
+       else pr_reset p0 (last_index (r_log r0) + 1)).
+  split; [|apply RoInv_new].
+  cbn [r_prs t_progress]. rewrite Ep.
+  change (PrsOk (map (fun kp => (fst kp, f (fst kp) (snd kp))) (t_progress (r_prs r)))).
+  intros id p G. rewrite (pget_map f) in G.
+  destruct (pget (t_progress (r_prs r)) id) as [q|] eqn:E; [|discriminate].
+  injection G as <-. specialize (Hi id q E). unfold f.
+  destruct (id =? r_id r0); (split; [apply inf_reset_inv; exact Hi|cbn; lia]).
+Qed.
+
+Lemma pget_fresh_inv ids n mi id p : pget (fresh_progress ids n mi) id = Some p -> Inv (ins p).
+Proof.
+  unfold fresh_progress. induction ids as [|k t IH]; cbn [map pget]; [discriminate|].
+  unfold pget; fold pget. cbn [fst snd].
+  destruct (k =? id); [intros H; injection H as <-; apply Inv_new|exact IH].
+Qed.
+
+Lemma pcc_nonleader r :
+  is_leader r = false ->
+  post_conf_change r =
+  Ok (r <| r_promotable := voters_contains (conf_of r) (r_id r) |>, to_conf_state (conf_of r)).
+Proof.
+  intros H. unfold post_conf_change. cbv zeta.
+  change (is_leader (r <| r_promotable := voters_contains (conf_of r) (r_id r) |>)) with (is_leader r).
+  rewrite H, andb_false_r. cbn [negb orb]. reflexivity.
+Qed.
+
+Theorem raft_new_NodeInv c st sa d r : raft_new c st sa d = Ok (inr r) -> NodeInv r.
+Proof.
+  unfold raft_new. intros H.
+  destruct (negb (cfg_validate c)); [discriminate|]. cbv zeta in H.
+  inv_bind H. rename x into l.
+  destruct (ConfChange.restore empty_tracker (cs st)) as [[c' ids']|e]; [|discriminate].
+  inv_bind H. destruct x as [r2 new_cs].
+  destruct (negb (conf_state_eq new_cs (cs st))); [discriminate|].
+  inv_bind H. rename x into r3. inv_bind H. rename x into r4. inv_bind H. rename x into r5.
+  inv_bind H. injection H as <-.
+  (* the progress map is still the fresh one when become_follower runs *)
+  rewrite pcc_nonleader in Hx0 by reflexivity. injection Hx0 as Er2 _.
+  assert (E2 : t_progress (r_prs r2) = fresh_progress ids' (last_index l) (c_max_inflight_msgs c))
+    by (rewrite <- Er2; reflexivity).
+  assert (E3 : t_progress (r_prs r3) = t_progress (r_prs r2)).
+  { destruct (hs_eqb (hs st) hs_default); [injection Hx1 as <-; reflexivity|].
+    unfold load_state in Hx1. destruct (_ || _); [discriminate|]. injection Hx1 as <-. reflexivity. }
+  assert (S2 : r_state r2 = Follower) by (rewrite <- Er2; reflexivity).
+  assert (S3 : r_state r3 = Follower).
+  { destruct (hs_eqb (hs st) hs_default); [injection Hx1 as <-; exact S2|].
+    unfold load_state in Hx1. destruct (_ || _); [discriminate|]. injection Hx1 as <-. exact S2. }
+  assert (E4 : t_progress (r_prs r4) = t_progress (r_prs r3)).
+  { destruct (0 <? c_applied c); [|injection Hx2 as <-; reflexivity].
+    unfold commit_apply_internal in Hx2. cbn [negb] in Hx2. inv_bind Hx2.
+    match type of Hx2 with context [is_leader ?rr] =>
+      change (is_leader rr) with (role_eqb (r_state r3) Leader) in Hx2 end.
+    rewrite S3 in Hx2.
+    cbn [role_eqb] in Hx2. rewrite andb_false_r in Hx2. injection Hx2 as <-. reflexivity. }
+  unfold become_follower in Hx3. inv_bind Hx3. injection Hx3 as <-.
+  match goal with Hr : reset _ _ = Ok ?rr |- _ =>
+    apply reset_establishes in Hr;
+      [exact Hr|intros id p G; unfold get_pr in G; rewrite E4, E3, E2 in G; eapply pget_fresh_inv; exact G]
+  end.
+Qed.
+
+Theorem rn_new_RnInv c st sa d n : rn_new c st sa d = Ok (inr n) -> RnInv n.
+Proof.
+  unfold rn_new. intros H. destruct (c_id c =? 0); [discriminate|].
+  inv_bind H. destruct x as [e|r]; [discriminate|]. injection H as <-.
+  apply raft_new_NodeInv in Hx. exact Hx.
+Qed.
